@@ -766,7 +766,9 @@ impl Ctx<'_> {
     /// Run one case on the real store and on the model; returns the real outcome (None = discarded).
     fn case(&mut self, stream: &str, progs: &[Vec<Op>], wal: Option<SyncMode>, sched: Option<&[usize]>, rng: &mut Rng, oracle: bool) -> Option<RunOut> {
         let mut out = None;
-        for _attempt in 0..3 {
+        // a scripted (directed / witness / replay) schedule is re-run more often: the known findings
+        // must be reproduced on every run, also on a loaded machine
+        for _attempt in 0..(if sched.is_some() { 12 } else { 3 }) {
             let mut r2 = rng.clone();
             let o = run_real(progs, wal, true, self.exclusive_emb, |i, ids| match sched {
                 Some(s) => s.get(i).copied(),
@@ -1051,7 +1053,7 @@ fn main() {
                         ctx.rep.hit(&format!("witness_not_reproduced_on_real_store:{name}"));
                         ctx.rep.observe(json!({"witness": name, "real_history": o.hist_s, "image": o.image, "recovered": o.rimage}));
                     }
-                    None => ctx.rep.disagree("witness.stalled", json!({"witness": name}), "scheduler stalled three times", ""),
+                    None => ctx.rep.disagree("witness.stalled", json!({"witness": name}), "scheduler stalled on every attempt", ""),
                 }
             }
             _ => ctx.rep.disagree("witness.driver", json!({"witness": name}), "", &w),
